@@ -92,6 +92,7 @@ def body(ck):
     ck.not_proved = ["bit-reproducibility of XLA on this machine and 'different keys yield different runs' are runtime / statistical facts: observed, not proved",
                      "that collect_rollout/train never read callback state is the architecture the theorem assumes (the core functions do not take it as input); observed by the metamorphic runs"]
     ck.build_coq(); ck.compile_props()
+    ck.kernel_link()   # iteration() / learn() / reset() of the on-policy learners regenerated from the source = Observers skeleton (coq/link/C11_link.v)
     quick = ck.tier == "quick"
     # the same training in fresh interpreter processes (string hashing differs per process): started now, collected at the end
     import subprocess
